@@ -360,7 +360,7 @@ type scenario struct {
 	policy string
 	polAt  string // s: session level ; q: statement level ; o: statement level over a session-level decoy
 	obs    string // - | s | q | o
-	idem   string // query: 0 | 1 ; batch: one 0/1 per entry in order, "-" = no entries (idempotent iff every entry is)
+	idem   string // query: 0 | 1 | D | F (session default true: unset / set to false on the statement); batch: one 0/1 per entry in order, "-" = no entries (idempotent iff every entry is)
 	sp     string // - | K : SimpleSpeculativeExecution{K, 1h} | Kf : SimpleSpeculativeExecution{K, 1µs} (non-idempotent statements only)
 	ctx    string // - | c | d | p | pd
 	cons   int    // initial consistency
@@ -552,6 +552,9 @@ func buildStmt(s *gocql.Session, d scenario, ctx context.Context, stmtObs *recor
 		if d.idem == "1" {
 			q = q.Idempotent(true)
 		}
+		if d.idem == "F" {
+			q = q.Idempotent(false) // over the session's DefaultIdempotence = true
+		}
 		if d.polAt != "s" {
 			q = q.RetryPolicy(makePolicy(d.policy))
 		}
@@ -726,6 +729,7 @@ func runEx(d scenario) (answer string) {
 		cfg.Timeout = 3 * time.Second // the "never answered" fate ends by the driver's own timer
 	}
 	cfg.ConnectTimeout = 2 * time.Second
+	cfg.DefaultIdempotence = d.kind == "q" && (d.idem == "D" || d.idem == "F")
 	pol := &scriptPolicy{hosts: map[string]*gocql.HostInfo{}, order: order}
 	cfg.PoolConfig.HostSelectionPolicy = pol
 	conv := &lenient{spare: spare}
@@ -1011,6 +1015,11 @@ func entryFlags(idem string) []bool {
 		if c == '0' || c == '1' {
 			out = append(out, c == '1')
 		}
+		// a query in a session whose ClusterConfig.DefaultIdempotence is true: D = no statement-level setting,
+		// F = Idempotent(false) on the statement
+		if c == 'D' || c == 'F' {
+			out = append(out, c == 'D')
+		}
 	}
 	return out
 }
@@ -1163,8 +1172,11 @@ func idemGrid() []scenario {
 		}
 	}
 	add("q", "0")
+	add("q", "F") // Idempotent(false) over a session default of true
 	add("q", "0")
+	add("q", "F") // Idempotent(false) over a session default of true
 	add("q", "0")
+	add("q", "F") // Idempotent(false) over a session default of true
 	return out
 }
 
@@ -1174,7 +1186,7 @@ func genScenario(r *vh.Rng) scenario {
 		if r.Intn(3) == 0 {
 			d.api = "i"
 		}
-		d.idem = []string{"0", "1"}[r.Intn(2)]
+		d.idem = []string{"0", "1", "0", "1", "D", "F"}[r.Intn(6)]
 	} else {
 		if r.Intn(6) == 0 {
 			d.ctor = "n"
